@@ -55,7 +55,9 @@ COMPONENTS = {"real": ["operon_ai.organelles.mitochondria.Mitochondria", "operon
               "stub": ["tool bodies (side-effect counters that judge themselves)", "LLM provider (scripted fake)",
                        "datetime.now (virtual clock)", "the OS scheduler (seeded line-granularity scheduler, threads family)"]}
 ASSUMPTIONS = [
-    "a tool declares its requirements through exactly one of the two attributes the engine reads, or through both with the same value",
+    "a tool declares its requirements through exactly one of the two attributes the engine reads, through both with the same "
+    "value, or through one of them while the other is present but empty / None (then the non-empty one is the declaration; two "
+    "different non-empty declarations are never generated)",
     "when the ceiling attribute is changed after construction a tool counts as forbidden only if it is outside both the "
     "constructed and the current ceiling (the statement speaks of the constructed set, DESIGN of the current one)",
     "a refusal must be reported as a failure only for a request whose top-level node is the tool call, on the auto or the tool pathway",
@@ -72,7 +74,7 @@ EXPECT_PROBES = ("forbidden_requested_metabolize", "forbidden_requested_call", "
                  "ros_latched", "unknown_tool_requested", "caps_attr_tool_requested", "list_declared_tool_requested",
                  "partial_overlap_requested", "llm_forever", "threads_run", "registered_while_request_in_flight",
                  "threads_forbidden_body_refused_after_swap", "two_engines_one_nucleus", "nucleus_switched_engine",
-                 "nucleus_switched_to_stricter_engine", "same_callable_reregistered", "same_callable_flip_requested")
+                 "nucleus_switched_to_stricter_engine", "same_callable_reregistered", "same_callable_flip_requested", "both_attrs_one_empty_requested")
 
 CAPS = ["read_fs", "write_fs", "net", "exec_code", "money", "email_send", "gpu"]   # "gpu": a foreign (string) tag
 _ENUM = {c.value: c for c in Capability}
@@ -129,8 +131,13 @@ def _reg(rng, name, allowed, want_forbidden, same_callable=False):
         return ["reg", name, _req_for(rng, allowed, want_forbidden), "required_capabilities",
                 weighted(rng, [(4, "set"), (2, "frozenset"), (3, "list"), (1.5, "tuple")]), via, False, True]
     via = weighted(rng, [(3, "function"), (3, "simple"), (4, "custom")])
-    attr = "required_capabilities" if via != "custom" else weighted(
-        rng, [(4, "required_capabilities"), (4, "capabilities"), (2, "both")])
+    if via == "custom":
+        attr = weighted(rng, [(4, "required_capabilities"), (4, "capabilities"), (2, "both"), (2, "caps+empty_req"),
+                              (1, "caps+none_req"), (1, "req+empty_caps"), (0.5, "req+none_caps")])
+    elif via == "simple":
+        attr = weighted(rng, [(4, "required_capabilities"), (1.5, "caps+empty_req")])
+    else:
+        attr = "required_capabilities"
     return ["reg", name, _req_for(rng, allowed, want_forbidden), attr,
             weighted(rng, [(4, "set"), (2, "frozenset"), (3, "list"), (1.5, "tuple")]), via, rng.random() < 0.25]
 
@@ -365,6 +372,26 @@ def simplify(plan):
 
 
 # --------------------------------------------------------------------------- fakes
+def _both_attrs(tool, attr, caps):
+    """Both attributes present, one of them empty / None: the declaration lives in the other one."""
+    if attr.startswith("caps+"):
+        tool.required_capabilities = type(caps)() if attr == "caps+empty_req" else None
+        tool.capabilities = caps
+    elif attr.startswith("req+"):
+        tool.required_capabilities = caps
+        tool.capabilities = type(caps)() if attr == "req+empty_caps" else None
+
+
+def _simple_tool(name, body, attr, caps):
+    """The repo's SimpleTool; with a caps+... declaration it keeps its default-like empty required_capabilities and is
+    given a `capabilities` attribute (an instance/subclass extension the engine's attribute chain honours)."""
+    if attr.startswith("caps+"):
+        t = SimpleTool(name=name, description="sim tool " + name, func=body, required_capabilities=type(caps)())
+        t.capabilities = caps
+        return t
+    return SimpleTool(name=name, description="sim tool " + name, func=body, required_capabilities=caps)
+
+
 class _CustomTool:
     """A Tool-protocol object that is not a SimpleTool (requirements through either attribute)."""
 
@@ -376,6 +403,7 @@ class _CustomTool:
             self.required_capabilities = caps
         if attr in ("capabilities", "both"):
             self.capabilities = caps
+        _both_attrs(self, attr, caps)
 
     def execute(self, *a, **kw):
         return self._body(*a, **kw)
@@ -558,15 +586,14 @@ class _World:
         name, body, caps, attr, via = self.build(spec)
         if via == "custom":
             return _CustomTool(name, body, attr, caps)
-        return SimpleTool(name=name, description="sim tool " + name, func=body, required_capabilities=caps)
+        return _simple_tool(name, body, attr, caps)
 
     def register(self, m, spec, tr=None):
         name, body, caps, attr, via = self.build(spec)
         if via == "function":
             return call(m.register_function, name, body, "sim tool " + name, caps or None, tracer=tr)
         if via == "simple":
-            return call(m.engulf_tool, SimpleTool(name=name, description="sim tool " + name, func=body,
-                                                  required_capabilities=caps), tracer=tr)
+            return call(m.engulf_tool, _simple_tool(name, body, attr, caps), tracer=tr)
         return call(m.engulf_tool, _CustomTool(name, body, attr, caps), tracer=tr)
 
     def total_ran(self, name):
@@ -590,8 +617,10 @@ class _World:
                 k.probe("same_callable_flip_requested")
         if self.a_now is not None and len(self.a_now) == 0:
             k.probe("empty_ceiling_request")
-        if t["attr"] == "capabilities":
+        if t["attr"] == "capabilities" or t["attr"].startswith("caps+"):
             k.probe("caps_attr_tool_requested")
+        if "+" in t["attr"]:
+            k.probe("both_attrs_one_empty_requested")
         if t["cont"] in ("list", "tuple"):
             k.probe("list_declared_tool_requested")
         if self.a_now is not None and t["req"] & self.a_now:
@@ -620,8 +649,7 @@ class _World:
             for m in engines:
                 out = call(m.register_function, name, body, "sim tool " + name, caps or None, tracer=tr)
             return out
-        tool = (SimpleTool(name=name, description="sim tool " + name, func=body, required_capabilities=caps)
-                if via == "simple" else _CustomTool(name, body, attr, caps))
+        tool = _simple_tool(name, body, attr, caps) if via == "simple" else _CustomTool(name, body, attr, caps)
         for m in engines:
             out = call(m.engulf_tool, tool, tracer=tr)
         return out
